@@ -49,6 +49,33 @@ def _chain(rules):
     return out, cur
 
 
+def _one_char_text(lp, site, txt):
+    """`for (row : table) if (row.ch == c) return makeToken(row.type, std::string(1, c))` — the token text is one character, equal
+    to the row's character on the path to the site (or the row's character itself)"""
+    a = SX.real_args(txt) if txt.get('k') == 'construct' else []
+    if len(a) != 2 or SX.strip(a[0]).get('v') != 1:
+        return False
+    c = SX.strip(a[1])
+    vid = lp['var'].get('id')
+
+    def row_member(e):
+        e = SX.strip(e)
+        return SX.is_node(e) and e.get('k') == 'member' and SX.is_node(SX.strip(e.get('base'))) and SX.strip(e['base']).get('id') == vid
+
+    if row_member(c):
+        return True
+    if not (SX.is_node(c) and c.get('k') == 'ref'):
+        return False
+    for i in SX.walk(lp['body']):
+        if i['k'] == 'if' and any(y is site for y in SX.walk(i.get('t'))):
+            cp = SX.cmp_parts(SX.strip(i.get('c')))
+            if cp and cp[0] == '==':
+                for x, y in ((cp[1], cp[2]), (cp[2], cp[1])):
+                    if row_member(x) and SX.is_node(SX.strip(y)) and SX.strip(y).get('id') == c.get('id'):
+                        return True
+    return False
+
+
 def run(prog, chk):
     chk.rule('R14.1', 'all-pairs grouping of the Pratt table equals the documented precedence chain (left-associative), prefix/postfix interplay included')
     chk.rule('R14.2', 'operator and keyword tokens: grammar ↔ lexer ↔ parser agree')
@@ -83,8 +110,13 @@ def run(prog, chk):
                                             items = [SX.strip(x) for x in (row.get('items') or row.get('args') or [])]
                                             toks = [x for x in items if SX.is_node(x) and x.get('k') == 'ref' and x.get('kind') == 'enum' and 'TokenType' in x.get('name', '')]
                                             strs = [x for x in items if SX.is_node(x) and x.get('k') == 'str']
+                                            chs = [x for x in items if SX.is_node(x) and x.get('k') == 'char']
                                             if len(toks) == 1 and len(strs) == 1:
                                                 spell[strs[0]['v']] = toks[0]['name'].split('::')[-1]
+                                            elif len(toks) == 1 and not strs and len(chs) == 1 and len(items) == 2 and _one_char_text(lp, n, txt):
+                                                # single-character rows {ch, type}: the text is the consumed character, which the
+                                                # enclosing test equates with the row's character
+                                                spell[chr(chs[0]['v'])] = toks[0]['name'].split('::')[-1]
     kw = {}
     for gl in prog.facts.globals.values():
         if gl['name'].endswith('keywords') and gl['file'].endswith('lexer.cpp'):
